@@ -13,7 +13,8 @@ PARAMS = {}
 
 PROPS["C06"] = Prop(
     "C06", ["GA.Props.C06", "GA.Props.Body"],
-    [Engine("iterq", scen.iterq, body_view=True, sig=lambda l: "n=" + l.split()[0].split("=")[1] if int(l.split()[0].split("=")[1]) > 8 else "small")],
+    [Engine("iterq", scen.iterq, body_view=True, sig=lambda l: "n=" + l.split()[0].split("=")[1] if int(l.split()[0].split("=")[1]) > 8 else "small"),
+     Engine("own", lambda t, s, p: [x for x in scen.own_c05(t, s, p) if x.startswith("op=iter_")], sig=lambda l: own_sig(l), body_view=True)],
     trusted=[KERNEL, TRANSLATOR, BODYTIE, HARNESS,
              "modelled, not verified: ptr::read / get_unchecked / slice iteration semantics of core; VecDeque is the independent oracle"],
     assumptions=["elements are plain u64 values (Clone copies the value)",
@@ -132,7 +133,9 @@ PROPS["C03"] = Prop(
     "C03", ["GA.Props.C03", "GA.Props.Body", "GA.Props.BodyCollect"],
     [Engine("hist", scen.hist, sig=lambda l: "len%d" % min(40, 5 * (l.count(";") // 5)), miri=12),
      Engine("seq", scen.seq, sig=lambda l: l.split()[0] + "/" + l.split()[-1]),
-     Engine("regroup", lambda t, s, p: [x for x in scen.regroup(t, s, p) if "kind=tr" in x], sig=lambda l: l.split()[0])],
+     Engine("regroup", lambda t, s, p: [x for x in scen.regroup(t, s, p) if "kind=tr" in x], sig=lambda l: l.split()[0]),
+     Engine("own", scen.own_c08, sig=own_sig, body_view=True),
+     Engine("heap", lambda t, s, p: [x for x in scen.heap_c15(t, s, p) if "kind=tr" in x or "kind=z" in x], sig=lambda l: l.split()[0])],
     trusted=[KERNEL, TRANSLATOR, BODYTIE, HARNESS, OWN_TRUST, MEM_TRUST],
     assumptions=["histories are panic-free (C04/C05 cover panics); element ids are assigned in creation order",
                  "flatten/unflatten are modelled at pool level as regrouping of rows (C11 gives the element order); conversions to/from native arrays, tuples, Vec and Box keep the elements (C15/C16 cover the heap side)",
